@@ -229,4 +229,140 @@ theorem innerTarget_eq (start : BitVec 64) (c : Nat) (d a : BitVec 64) (h : inne
       rw [← h, BitVec.sub_eq_add_neg, BitVec.neg_neg]
     · simp at h
 
+theorem innerTarget_none (start : BitVec 64) (c : Nat) (d : BitVec 64) :
+    innerTarget start c d = none ↔ (d.slt 0 = true ∧ (BitVec.ofNat 64 c + d).slt 0 = false) := by
+  unfold innerTarget
+  cases h1 : d.slt 0 <;> cases h2 : (BitVec.ofNat 64 c + d).slt 0 <;> simp
+
+theorem callHit_some (start : BitVec 64) (c : Nat) (r : Res) (a : BitVec 64) (h : callHit start c r = some a) :
+    ∃ d, isCall r.op = true ∧ r.args.head? = some (.pcrel d) ∧ innerTarget start c d = some a := by
+  unfold callHit at h
+  split at h
+  · rename_i hc
+    split at h
+    · rename_i d hd; exact ⟨d, hc, hd, h⟩
+    · simp at h
+  · simp at h
+
+/-- whenever GetInnerFunc returns an address, it is the one computed from a B/BL found at a word-aligned offset ≤ 4096 -/
+theorem inner_target (env : Env) (mem : Nat → BitVec 32) (start : BitVec 64) :
+    ∀ fuel c z a, c ≤ 4096 → getInnerFunc env mem start fuel c z = .target a →
+      ∃ c' r d, c ≤ c' ∧ (c' - c) % 4 = 0 ∧ c' ≤ 4096 ∧ decode env (mem c') = some r ∧ isCall r.op = true ∧
+        r.args.head? = some (.pcrel d) ∧ innerTarget start c' d = some a := by
+  intro fuel
+  induction fuel with
+  | zero => intro c z a _ h; simp [getInnerFunc] at h
+  | succ fuel ih =>
+    intro c z a hc h
+    unfold getInnerFunc at h
+    split at h
+    · simp at h
+    · rename_i r hr
+      simp only at h
+      split at h
+      · simp at h
+      · split at h
+        · rename_i a' ha
+          simp only [Inner.target.injEq] at h
+          subst h
+          obtain ⟨d, h1, h2, h3⟩ := callHit_some start c r a' ha
+          exact ⟨c, r, d, Nat.le_refl _, by simp, hc, hr, h1, h2, h3⟩
+        · split at h
+          · simp at h
+          · split at h
+            · simp at h
+            · rename_i hle
+              obtain ⟨c', r', d, h1, h2, h3, h4⟩ := ih (c + 4) _ a (by omega) h
+              exact ⟨c', r', d, by omega, by omega, h3, h4⟩
+
+/-- with fuel for 1026 iterations the model never runs dry (the Go loop is bounded by `curLen > 4096`) -/
+theorem inner_fuel (env : Env) (mem : Nat → BitVec 32) (start : BitVec 64) :
+    ∀ fuel c z, c ≤ 4100 → 4100 < c + 4 * fuel → getInnerFunc env mem start fuel c z ≠ .fuel := by
+  intro fuel
+  induction fuel with
+  | zero => intro c z h0 h; omega
+  | succ fuel ih =>
+    intro c z h0 h
+    unfold getInnerFunc
+    split
+    · simp
+    · simp only
+      split
+      · simp
+      · split
+        · simp
+        · split
+          · simp
+          · split
+            · simp
+            · exact ih (c + 4) _ (by omega) (by omega)
+
+/-- GetFuncSize: the value returned is the offset of the first undecodable word, or of a prologue found after at least
+    one decodable word — given that no decode yields Op 0 (proved of the table in Props/C17) -/
+theorem funcSize_extent (env : Env) (mem : Nat → BitVec 32) (minimal : Bool)
+    (hop : ∀ w r, decode env w = some r → r.op ≠ 0) :
+    ∀ fuel c n, getFuncSize env mem minimal fuel c false = some n →
+      c ≤ n ∧ (n - c) % 4 = 0 ∧ (∀ k, c ≤ k → k < n → (k - c) % 4 = 0 → (decode env (mem k)).isSome = true) ∧
+      (decode env (mem n) = none ∨ (c < n ∧ prologueAt mem n = true)) := by
+  intro fuel
+  induction fuel with
+  | zero => intro c n h; simp [getFuncSize] at h
+  | succ fuel ih =>
+    intro c n h
+    unfold getFuncSize at h
+    split at h
+    · rename_i hd
+      simp only [Option.some.injEq] at h
+      subst h
+      exact ⟨Nat.le_refl _, by simp, by intro k h1 h2; omega, Or.inl hd⟩
+    · rename_i r hr
+      have hz : isInt0 r (mem c) = false := by
+        have := hop _ _ hr
+        simp [isInt0, this]
+      simp only [hz, Bool.false_and, Bool.not_false, Bool.true_and, Bool.or_false, Bool.false_eq_true, if_false] at h
+      split at h
+      · rename_i hp
+        simp only [Option.some.injEq] at h
+        subst h
+        refine ⟨by omega, by omega, ?_, Or.inr ⟨by omega, hp⟩⟩
+        intro k h1 h2 h3
+        have : k = c := by omega
+        subst this
+        simp [hr]
+      · obtain ⟨h1, h2, h3, h4⟩ := ih (c + 4) n h
+        refine ⟨by omega, by omega, ?_, ?_⟩
+        · intro k hk1 hk2 hk3
+          by_cases hkc : k = c
+          · subst hkc; simp [hr]
+          · exact h3 k (by omega) hk2 (by omega)
+        · cases h4 with
+          | inl h => exact Or.inl h
+          | inr h => exact Or.inr ⟨by omega, h.2⟩
+
+/-- register-size bit `sf` / `b5` = bit 31 -/
+def bit31 (x : BitVec 32) : Bool := ((x >>> 31) &&& 1#32) != 0#32
+
+theorem bit31_cases (x : BitVec 32) : x &&& 0x80000000#32 = 0#32 ∧ bit31 x = false ∨ x &&& 0x80000000#32 = 0x80000000#32 ∧ bit31 x = true := by
+  have h : (0x80000000#32) = BitVec.twoPow 32 31 := by decide
+  have hg : x.getLsbD 31 = x[31] := BitVec.getLsbD_eq_getElem (by omega)
+  have hb : bit31 x = x[31] := by
+    unfold bit31
+    have : (x >>> 31) &&& 1#32 = if x[31] then 1#32 else 0#32 := by
+      ext i hi
+      by_cases h0 : i = 0
+      · subst h0; cases hx : x[31] <;> simp [hx, BitVec.getElem_ushiftRight]
+      · cases hx : x[31] <;> simp [BitVec.getElem_one, h0]
+    rw [this]
+    cases x[31] <;> decide
+  rw [h, BitVec.and_twoPow, hb, hg]
+  cases x[31] <;> simp
+
+/-- splitting the 1-bit `sf` out of a class mask -/
+theorem split_sf (x v : BitVec 32) (hx : x &&& 0x7f000000#32 = v) :
+    (x &&& 0xff000000#32 = v ∧ bit31 x = false) ∨ (x &&& 0xff000000#32 = v ||| 0x80000000#32 ∧ bit31 x = true) := by
+  have hm : (0xff000000#32) = 0x7f000000#32 ||| 0x80000000#32 := by decide
+  rcases bit31_cases x with ⟨h, hb⟩ | ⟨h, hb⟩
+  · left; refine ⟨?_, hb⟩; rw [hm, BitVec.and_or_distrib_left, hx, h]; simp
+  · right; refine ⟨?_, hb⟩; rw [hm, BitVec.and_or_distrib_left, hx, h]
+
 end C17L
